@@ -172,7 +172,11 @@ impl ServerContext {
         let cancellations = self.cancellations.clone();
 
         tokio::spawn(async move {
-            let res = exec(cancel_token.clone()).await;
+            // run the handler as its own task: if it panics the request is still answered
+            // (with InternalError below) instead of being left open forever
+            let res = tokio::spawn(exec(cancel_token.clone()))
+                .await
+                .unwrap_or_default();
             if cancel_token.is_cancelled() {
                 let response = Response::new_err(
                     req_id.clone(),
